@@ -946,6 +946,24 @@ def direction_save(ctx, desc, inp, fmt, tmp, cfg):
         check_constructed(ctx, "roundtrip", fmt, L, R, exp, cfg)
     if ok and fmt == "geogram_ascii" and made:
         check_attributes_loaded(ctx, L, _kept(made, ignore))
+    if ok and good and fmt == "geogram_ascii" and not ignore and hasattr(mesh, "cell_faces") and hasattr(L, "cell_faces") and len(mesh.cell_faces):
+        # the adjacency the format carries for volumes (neighbouring cell across each cell facet, "no neighbour" = 4294967295; cell number 0 is a
+        # neighbour like any other): what the file says (reference reader) must be what the loaded mesh holds
+        try:
+            _, attrs_in_file = ref_geogram.parse(path)
+            v0 = [int(x) for (sn, an, typ, es, dm, vals) in attrs_in_file if an.endswith("adjacent_cell") for x in vals]
+            n1 = [x for x in ("opposite_cell", "adjacent_cell") if L.cell_faces.has_attribute(x)]
+            v1 = [int(L.cell_faces.get_attribute(n1[0])[i]) for i in range(len(L.cell_faces))] if n1 else None
+        except Exception as e:
+            ctx.note("cell_adjacency_not_compared:" + type(e).__name__)
+            v0 = v1 = None
+        if v0 and v1 is not None and len(v0) == len(v1):
+            ctx.obs("attributes", "geogram_ascii/cell_adjacency")
+            bad = [i for i in range(len(v0)) if v0[i] != v1[i]]
+            if bad:
+                ctx.violation("attributes", "geogram_ascii/cell_adjacency", "cell_adjacency_value_changed",
+                              "the cell adjacency written in the file is not what the loaded mesh holds", index=bad[0], in_file=v0[bad[0]], loaded=v1[bad[0]],
+                              n_bad=len(bad))
     return snap
 
 
